@@ -260,7 +260,7 @@ func ruleStateActions(c *Ctx, dv *dev) {
 	}
 	for field, fns := range allowed {
 		for _, s := range storesToField(c.P, dv.fields[field]) {
-			if o := dv.ownerOf(s.Fn); !fns[o.Name()] || (topFunc(s.Fn) != s.Fn && o == topFunc(s.Fn)) {
+			if o := dv.ownerOf(s.Fn); !fns[dv.refName(o)] || (topFunc(s.Fn) != s.Fn && o == topFunc(s.Fn)) {
 				c.Bad("R4.6", "store(Device."+field+")@"+shortFn(s.Fn), c.P.Pos(s.Instr.Pos()), "Device."+field+" is written outside its action functions and NewDevice")
 			}
 		}
